@@ -187,20 +187,25 @@ def generate(rng, config):
     strategy, budget = adversary_from(rng, p_none=0.45)
     return {"type": gtype, "construction": c, "args": args, "mods": mods,
             "save": save, "cli": config == "cli",
+            "save_pos": rng.randint(0, len(mods)) if save else None,
             "prng": {"seed": rng.randrange(2 ** 32), "strategy": strategy,
                      "budget": budget}}
 
 
-def _spec(case, upto=None, with_save=True):
+def _spec(case, upto=None, with_save=True, order=None):
     toks = [case["construction"]] + list(case["args"])
-    mods = _canonical(case["mods"])
+    mods = order if order is not None else _canonical(case["mods"])
     if upto is not None:
         mods = mods[:upto]
     else:
         mods = case["mods"]
-    for m in mods:
+    pos = case.get("save_pos")
+    for j, m in enumerate(mods):
+        if with_save and upto is None and case["save"] and pos == j:
+            toks += ["save"] + case["save"]     # 'save' before a modifier
         toks += m
-    if with_save and upto is None and case["save"]:
+    if with_save and upto is None and case["save"] and \
+            (pos is None or pos >= len(mods)):
         toks += ["save"] + case["save"]
     return toks
 
@@ -606,11 +611,24 @@ def execute(case, ctx):
     cur = r0[1]
     randomised = case["construction"] in ("gnp", "gnm", "gnd", "glrp",
                                           "glrm", "glrd", "regular")
+    # The statement does not say in which order several modifiers are
+    # applied: the documented fixed order (plant, add, split) and the order
+    # on the command line are both accepted - whichever explains the graph
+    # the complete specification gives.
+    order = mods
+    if len(mods) >= 2 and list(case["mods"]) != list(mods) and \
+            res[0] == "ok":
+        rc, _ = _build(case, _spec(case, upto=len(mods), order=mods))
+        if rc[0] != "ok" or graphviews.snapshot(rc[1])[:-1] != \
+                graphviews.snapshot(res[1])[:-1]:
+            order = list(case["mods"])
+            ctx.note("modifiers applied in command-line order")
+    mods = order
     # ---- modifiers, one prefix at a time ---------------------------------------
     for i, m in enumerate(mods, start=1):
         name = m[0]
         vals = _ints(m[1:])
-        ri, _ = _build(case, _spec(case, upto=i))
+        ri, _ = _build(case, _spec(case, upto=i, order=mods))
         before_n = cur.number_of_vertices()
         before_E = _edges(cur)
         if vals is None or any(v < 0 for v in vals):
@@ -706,6 +724,17 @@ def execute(case, ctx):
     # ---- the complete specification ---------------------------------------------
     if res[0] == "exc":
         if isinstance(res[1], ValueError):
+            given = list(case["mods"])
+            if given != list(mods):
+                # meetable in the documented order; is it unmeetable in the
+                # order written on the command line?  Then refusing it is a
+                # legitimate reading of the specification.
+                for i in range(1, len(given) + 1):
+                    rg, _ = _build(case, _spec(case, upto=i, order=given))
+                    if rg[0] == "exc" and isinstance(rg[1], ValueError):
+                        ctx.note("refused: unmeetable in command-line order")
+                        ctx.nontrivial = True
+                        return
             bad("valid-request-refused", repr(res[1]))
         internal(res[1], "full-spec")
     G = res[1]
